@@ -332,58 +332,6 @@ pub fn run(ctx: &mut Ctx) {
             }
             v
         };
-        // ---- packs written by the low-level creators into a stream which already holds more bytes than
-        // the new pack (a previous, larger file re-used without truncation): the pack produced must verify
-        for reuse in 0..2u64 {
-            let my = case;
-            case += 1;
-            if !ctx.wants(my) {
-                continue;
-            }
-            let mut crng = rng.fork(my);
-            let dir = ctx.work.join(format!("c04-{}", my));
-            std::fs::create_dir_all(&dir).unwrap();
-            let old_len = 3000 + crng.below(9000) as usize;
-            let res = util::guarded(|| -> Result<Vec<std::path::PathBuf>, String> {
-                let open_reused = |p: &std::path::Path, fill: &[u8]| -> Result<std::fs::File, String> {
-                    std::fs::write(p, fill).map_err(|e| format!("io:{e}"))?;
-                    std::fs::OpenOptions::new().read(true).write(true).open(p).map_err(|e| format!("io:{e}"))
-                };
-                let mut out = vec![];
-                // a directory pack over old bytes
-                let dp = jbk::creator::DirectoryPackCreator::new(jbk::PackId::from(0), util::VENDOR, Default::default());
-                let dpath = dir.join("reused.jbkd");
-                let mut df = open_reused(&dpath, &crng.bytes(old_len))?;
-                let dinfo = dp.finalize().map_err(|e| format!("{e}"))?.write(&mut df).map_err(|e| format!("{e}"))?;
-                drop(df);
-                out.push(dpath);
-                if reuse == 1 {
-                    // … and a manifest over old bytes, listing it
-                    let mut mc = jbk::creator::ManifestPackCreator::new(util::VENDOR, Default::default());
-                    mc.add_pack(dinfo, "reused.jbkd".to_string());
-                    let mpath = dir.join("reused.jbkm");
-                    let mut mf = open_reused(&mpath, &crng.bytes(old_len / 2 + 700))?;
-                    mc.finalize(&mut mf).map_err(|e| format!("{e}"))?;
-                    drop(mf);
-                    out.push(mpath);
-                }
-                Ok(out)
-            });
-            match res {
-                Ok(Ok(paths)) => {
-                    for p in &paths {
-                        let fc = file_check(p);
-                        if fc != "true" {
-                            ctx.fail(my, "pristine-reused-stream", &format!("a pack written by the low-level creator over a previous, larger file ({} old bytes) does not verify: open_pack({}).check() = {}", old_len, p.file_name().unwrap().to_string_lossy(), fc));
-                        }
-                        ctx.count("reused_stream_packs");
-                    }
-                    ctx.sample(format!("low-level creators writing over a previous file of {} bytes: {} packs verified", old_len, paths.len()));
-                    ctx.case_done(fnv(format!("reused{}{}", my, old_len).as_bytes()), true);
-                }
-                other => ctx.fail(my, "create", &format!("low-level creation over a previous file failed: {:?}", other)),
-            }
-        }
         for (mode, extra) in many {
             let my = case;
             case += 1;
